@@ -178,6 +178,11 @@ def st_load():
     return st.fixed_dictionaries({"op": st.just("load"), "how": st.sampled_from(["manager", "dir", "meta"])})
 
 
+def st_side():
+    """a second container that holds one of the stored curves with ANOTHER fit is written and loaded in between"""
+    return st.fixed_dictionaries({"op": st.just("side"), "pick": st.integers(0, 7), "fit": st.integers(0, 2)})
+
+
 @st.composite
 def st_history(draw, with_fault):
     files = draw(st.lists(st_file(), min_size=1, max_size=3))
@@ -185,7 +190,7 @@ def st_history(draw, with_fault):
     fits = [base]
     for _ in range(draw(st.integers(1, 2))):
         fits.append(draw(st_variant(base)))
-    ops = draw(st.lists(st.one_of(st_save(), st_save(), st_save(), st_load()), min_size=2, max_size=8))
+    ops = draw(st.lists(st.one_of(st_save(), st_save(), st_save(), st_load(), st_side()), min_size=2, max_size=8))
     if with_fault:
         first = dict(draw(st_save()), mode="new")
         tail = draw(st.lists(st.one_of(st_save(), st_load()), max_size=2))
@@ -804,6 +809,50 @@ def interpret(case, ctx, env, stats):
                 else:
                     ok = got == want
                 ctx.check(ok, "user-field-differs", dict(desc, field="all"), f"loaded {got} vs stored {want}")
+            continue
+
+        if op["op"] == "side":
+            if not env.container.exists() or not model or tainted or nfits < 2:
+                continue
+            t = list(model.values())[op["pick"] % len(model)]
+            sidx = (t.sidx + 1 + op["fit"] % (nfits - 1)) % nfits
+            other = env.fitted_curve(t.fidx, t.eidx, sidx)
+            if other is None:
+                continue
+            stats["classes"].append("side-container")
+            desc = dict({"step": "side"}, **state_flags(env, model))
+            first = None
+            with ctx.no_raise("load-raises", desc):
+                first = rio.load_hdf5(env.container)
+            if first is None:
+                continue
+            held = [(r, snapshot(r["data_set"])) for r in first]
+            side = env.scratch(None)
+            user = {"rating": 3, "name": "side", "comment": "other analysis of the same curve"}
+            outcome, _log, exc = do_save(side, other, user)
+            if outcome != "ok":
+                ctx.event("side-save-" + outcome)
+                continue
+            side_r = None
+            with ctx.no_raise("load-raises", dict(desc, container="side")):
+                side_r = rio.load_hdf5(side)
+            if side_r is not None and ctx.check(len(side_r) == 1, "stored-entry-missing", dict(desc, container="side"),
+                                                f"{len(side_r)} ratings loaded from a container with one entry"):
+                compare_entry(ctx, env, Entry(t.key, t.fidx, t.eidx, sidx, other, user), side_r[0],
+                              dict(desc, container="side"))
+            # what an earlier load handed out is not changed by later loads
+            for r, snap0 in held:
+                snap1 = snapshot(r["data_set"])
+                bad = [c for c in COLUMNS if not identical(snap0["columns"][c], snap1["columns"][c])]
+                bad += [k for k in set(snap0["settings"]) | set(snap1["settings"])
+                        if k not in snap0["settings"] or k not in snap1["settings"]
+                        or not value_equal(snap0["settings"][k], snap1["settings"][k])]
+                bad += ["results:" + k for k in set(snap0["results"]) ^ set(snap1["results"])]
+                ctx.check(not bad, "loaded-curve-changed-by-later-load", desc,
+                          f"curve {r['data_set'].path.name}/{r['enum']} loaded from the container changed in {bad} when "
+                          f"another container with the same curve was loaded")
+            # and the container itself still loads as stored
+            check_container(ctx, env, env.container, model, tainted, desc)
             continue
 
         # ---- resolve the save op against the model (ops are total)
